@@ -15,7 +15,7 @@ use mithril_common::test::double::{Dummy, fake_keys};
 use mithril_stm::{AggregateSignature, AggregateVerificationKeyForConcatenation, Parameters, SingleSignature, VerificationKeyProofOfPossessionForConcatenation};
 use serde_json::Value;
 
-use super::decoders::{self as dec, DECODERS};
+use super::decoders as dec;
 use super::honest::{self as h, D, Enc, Form, StmWorld};
 use super::mutate::{Blind, Fam, JsonPlan, Lvl, boundary_u64, repeat_input};
 
@@ -751,10 +751,10 @@ pub fn build(tier: Tier, w: &Worlds) -> Space {
         // [sig, [vk, stake]] and [vk, stake]: taken out of the aggregate signature's JSON
         let aj: Value = serde_json::to_value(&world.agg).expect("agg json");
         let spj = aj["signatures"][0].clone();
-        let t = jt("single-signature-with-registered-party-json", "SP0", json_enc(&spj), serde_json::to_vec(&spj).unwrap());
+        let t = jt("single-signature-with-registered-party-json", "SP0", json_enc(&spj), dec::json(&spj));
         b.target("stm/single-signature-with-registered-party.json", &t, &idw, direct, true);
         let rj = spj[1].clone();
-        let t = jt("closed-registration-entry-json", "R0", json_enc(&rj), serde_json::to_vec(&rj).unwrap());
+        let t = jt("closed-registration-entry-json", "R0", json_enc(&rj), dec::json(&rj));
         b.target("stm/closed-registration-entry.json", &t, &idw, direct, true);
 
         if wi == 0 {
